@@ -129,17 +129,21 @@ class Graph:
                         b'if (x%d) ' % ri + call,
                         b'a%d = a%d or ' % (ri, ri) + call + b'.field'][form]
                 parts.append(('req', text, name, to, ugl))
-        if i and rng.random() < 0.5:
+        f['multi_line_tail'] = rng.random() < 0.15
+        if i and rng.random() < 0.5 and not f['multi_line_tail']:
             parts.append(('code', b'return {n=%d}' % i))
+        if f['multi_line_tail']:
+            # a last statement that spans lines (long string / block comment inside it) with more tokens after the inner line break
+            parts.append(('code', rng.choice([b'local s%d=[[a\nb]] t%d=1', b'u%d="v" --[[ c\nd ]] w%d=2', b'print([[x%d\ny]], %d)']) % (i, i)))
         f['parts'] = parts
         # (always a line break between parts: a part may end in a line-scoped short-if or `?` statement)
         sep = [rng.choice([b'\n', b'\n\n', b' \n', b'\n-- c\n']) for _ in parts]
-        f['final_nl'] = rng.random() < 0.6
+        f['final_nl'] = rng.random() < 0.6 and not f['multi_line_tail']
         text = b''
         for p, s in zip(parts, sep):
             text += p[1] + s
         # how a file ends: a final line feed, or none — then possibly blanks, a tab or a comment (with trailing blanks) last
-        text = text.rstrip(b'\n ') + (b'\n' if f['final_nl'] else rng.choice([b'', b'', b' ', b'\t', b' -- tail', b' -- tail  ', b'\n// t\t', b'\n-- c ', b'  ']))
+        text = text.rstrip(b'\n ') + (b'\n' if f['final_nl'] else b'' if f['multi_line_tail'] else rng.choice([b'', b'', b' ', b'\t', b' -- tail', b' -- tail  ', b'\n// t\t', b'\n-- c ', b'  ']))
         f['text'] = text
 
     def write(self):
